@@ -229,3 +229,9 @@ Definition pending (tr : list (op * out)) : list N := skipn (length (popped tr))
 
 (* all steps of a trace segment were made by the consumer *)
 Definition consumer_only (tr : list (op * out)) : Prop := Forall (fun e => fst e = OpC) tr.
+
+(* access kinds numbered as gen/consts/ring.py numbers them in the source text *)
+Definition acc_code (a : acc) : N :=
+  match a with LdR _ => 1 | LdW _ => 2 | WrD _ _ => 3 | StW _ => 4 | RdD _ _ => 5 | StR _ => 6 end%N.
+Definition out_code (e : op * out) : N :=
+  match snd e with Out a _ => acc_code a | _ => 0%N end.
